@@ -65,6 +65,43 @@ pub fn build_input(family: &str, d: usize) -> Vec<u8> {
                 v.extend_from_slice(&[2, 0xFF, 0xFF]);
             }
         }
+        "flat-object-valueless-properties" => {
+            // one object whose properties have the object-end byte where the value should be
+            v.push(3);
+            for _ in 0..d {
+                v.extend_from_slice(&[0, 1, b'a', 9]);
+            }
+            v.extend_from_slice(&[0, 0, 9]);
+        }
+        "flat-object-many-properties" => {
+            v.push(3);
+            for i in 0..d {
+                v.extend_from_slice(&[0, 2, b'a' + (i % 26) as u8, b'a' + ((i / 26) % 26) as u8, 5]);
+            }
+            v.extend_from_slice(&[0, 0, 9]);
+        }
+        "many-empty-objects" => {
+            for _ in 0..d {
+                v.extend_from_slice(&[3, 0, 0, 9]);
+            }
+        }
+        "array-of-empty-objects" => {
+            v.push(10);
+            v.extend_from_slice(&(d as u32).to_be_bytes());
+            for _ in 0..d {
+                v.extend_from_slice(&[3, 0, 0, 9]);
+            }
+        }
+        "many-empty-ecma-arrays" => {
+            for _ in 0..d {
+                v.extend_from_slice(&[8, 0, 0, 0, 0, 0, 0, 9]);
+            }
+        }
+        "many-short-strings" => {
+            for _ in 0..d {
+                v.extend_from_slice(&[2, 0, 1, b'x']);
+            }
+        }
         "marker-then-ffffffff" => {
             // d = marker byte: any type whose length/count field the decoder might trust
             v.extend_from_slice(&[d as u8, 0xFF, 0xFF, 0xFF, 0xFF, b'a', b'b', b'c']);
@@ -161,7 +198,9 @@ pub fn run(run: &Run) {
     let stacks: Vec<usize> = if thorough { vec![2048, 8192, 256] } else { vec![2048] };
     let mut cases: Vec<(String, usize, usize)> = Vec::new();
     let units = [("nested-strict-arrays", 5usize), ("nested-objects", 4), ("nested-ecma-arrays", 8), ("alternating-array-object", 5), ("nested-closed", 7),
-        ("array-count-max-no-elements", 5), ("string-length-max-no-bytes", 3), ("ecma-count-max", 4), ("array-of-many-nulls", 1)];
+        ("array-count-max-no-elements", 5), ("string-length-max-no-bytes", 3), ("ecma-count-max", 4), ("array-of-many-nulls", 1),
+        ("flat-object-valueless-properties", 4), ("flat-object-many-properties", 5), ("many-empty-objects", 4), ("array-of-empty-objects", 4),
+        ("many-empty-ecma-arrays", 8), ("many-short-strings", 4)];
     for (fam, unit) in units.iter() {
         let top = max_len / unit;
         let mut d = 1usize;
@@ -171,6 +210,9 @@ pub fn run(run: &Run) {
             d *= 10;
         }
         ladder.push(top);
+        if fam.starts_with("flat") || fam.starts_with("many-empty") || fam.starts_with("array-of-empty") {
+            ladder.extend([1000, 5000, 20_000, 50_000, 200_000]);
+        }
         if fam.starts_with("nested") || fam.starts_with("alternating") {
             // the rungs where a recursion limit would sit
             ladder.extend([2, 16, 64, 127, 128, 129, 255, 256, 257, 1000, 5000, 20_000, 50_000]);
